@@ -292,3 +292,39 @@ pub async fn promote_to_level(meta: &dyn cardinalsin::metadata::MetadataClient, 
     }
     meta.complete_compaction(&[d(level - 1)], path).await.expect("promote");
 }
+
+/// Every row of every listed chunk must be found by a point lookup of its own timestamp through the catalog's
+/// time index (`get_chunks([ts, ts])` returns the chunk that holds it). Returns Err((path, id, ts, answer)).
+pub async fn rows_found_by_time(
+    store: &Arc<dyn ObjectStore>,
+    meta: &dyn cardinalsin::metadata::MetadataClient,
+    paths: &[String],
+    cache: &mut BTreeMap<String, Vec<(i64, i64)>>,
+) -> Result<u64, (String, i64, i64, Vec<String>)> {
+    let mut lookups = 0u64;
+    for p in paths {
+        if !cache.contains_key(p) {
+            let rows = match store.get(&object_store::path::Path::from(p.as_str())).await {
+                Ok(r) => decode_rows(r.bytes().await.unwrap_or_default()).unwrap_or_default(),
+                Err(_) => Vec::new(),
+            };
+            cache.insert(p.clone(), rows.iter().map(|r| (r.id, r.ts)).collect());
+        }
+        let rows = cache.get(p).cloned().unwrap_or_default();
+        // distinct timestamps are enough: first and last row plus every hour-boundary neighbour
+        let mut tss: Vec<(i64, i64)> = rows.clone();
+        tss.dedup_by_key(|r| r.1);
+        for (id, ts) in tss {
+            lookups += 1;
+            let got: Vec<String> = meta
+                .get_chunks(cardinalsin::metadata::TimeRange::new(ts, ts))
+                .await
+                .map(|v| v.into_iter().map(|e| e.chunk_path).collect())
+                .unwrap_or_default();
+            if !got.contains(p) {
+                return Err((p.clone(), id, ts, got));
+            }
+        }
+    }
+    Ok(lookups)
+}
